@@ -1999,3 +1999,9 @@ PROPS["C11"]["rule"] += DEPTH_LINES_RULE + (" Verdict (Drv/C01.lean judgeDepthPo
                     "opener, alternating; levels on one line, on their own lines, CR LF + blank) followed by another item - the error item sits at the 128th opener of ITS item.")
 PROPS["C09"]["rule"] += DEPTH_LINES_RULE
 PROPS["C14"]["rule"] += " Tag depth-lines (c01::depth_lines) as in C11."
+PROPS["C12"]["configs"] = dict(quick=list(PROPS["C12"]["configs"]["quick"]) + ["ud"], thorough=list(PROPS["C12"]["configs"]["thorough"]) + ["ud"])
+PROPS["C12"]["rule"] += (" Tag deep-stream (c12::deep_streams, op stream): streams whose items nest 127 / 128 / 129 deep (configuration ud also 200 / 1000) - brackets, braces, "
+                         "alternating - alone, between two scalars, and two deep items in a row followed by null, Value and IgnoredAny items, str / slice / reader; with the limit "
+                         "in force, and in configuration ud (feature unbounded_depth, now in both tiers) also after Deserializer::disable_recursion_limit() on the Deserializer that "
+                         "into_iter() turns into the stream (configuration token ud+nolimit: Model.Stream with limitOff, the grammar history without the depth side condition): the "
+                         "stream yields the deep values and continues.")
